@@ -115,6 +115,12 @@ Proof. unfold avar. now intros ->. Qed.
 Lemma svar_some e a v : tbl_var (e_a2s e) a = Some v -> svar e a = v.
 Proof. unfold svar. now intros ->. Qed.
 
+Definition sem_st (s : dsem) : bool := match s with DST => true | _ => false end.
+Lemma sem_st_true s : sem_st s = true <-> s = DST.
+Proof. destruct s; cbn; split; congruence. Qed.
+Lemma sem_st_false s : sem_st s = false <-> s <> DST.
+Proof. destruct s; cbn; split; congruence. Qed.
+
 Section DynInv.
 Variable L : Type.
 Variable leqb : L -> L -> bool.
@@ -220,7 +226,7 @@ Lemma cinv_push af af' e e' U U' C C' N N' dv atk n v :
   tbl_var (e_a2v e') n = Some v ->
   (forall a, tbl_var (e_a2s e') a = tbl_var (e_a2s e) a) ->
   N < v -> N <= N' ->
-  C' = C ++ (match e_sem e with DST => [] | _ => [[znlit v; znlit (S v)]] end) ->
+  C' = C ++ (if sem_st (e_sem e) then [] else [[znlit v; znlit (S v)]]) ->
   (forall a, has af' a = true <-> a = n \/ has af a = true) ->
   iter_attacks af' = iter_attacks af ->
   In n U' -> incl U U' ->
@@ -253,7 +259,7 @@ Proof.
   - intros a Hs Hn. rewrite HS in Hs. rewrite Hgrp by auto. eapply incl_tran; [apply H5; auto|exact HCC].
   - intros Hs a w Ha. rewrite Hsem in Hs. destruct (Nat.eq_dec a n) as [->|Hne].
     + rewrite HVn in Ha. injection Ha as <-. rewrite HC. apply in_or_app. right.
-      destruct (e_sem e); try congruence; left; reflexivity.
+      rewrite (proj2 (sem_st_false (e_sem e)) Hs). left; reflexivity.
     + rewrite HV in Ha by exact Hne. apply HCC. eauto.
   - intros c Hc'. rewrite HC in Hc'. apply in_app_or in Hc'. destruct Hc' as [Hc'|Hc'].
     + destruct (H7 c Hc') as [Hd|[(a & s & Hs & Ha & Hin)|[(a & Hs & Ha & Hin)|(Hs & a & w & Ha & ->)]]].
@@ -264,16 +270,11 @@ Proof.
         -- right. right. left. exists a. rewrite HS, Hgrp by auto. auto.
       * right. right. right. split; [congruence|]. exists a, w. split; [|reflexivity].
         rewrite HV; [exact Ha|]. specialize (HVlt a w Ha). lia.
-    + right. right. right. destruct (e_sem e) eqn:Es; cbn [In] in Hc'; try contradiction;
-        (destruct Hc' as [<-|[]]; split; [congruence|]; exists n, v; auto).
+    + right. right. right. destruct (sem_st (e_sem e)) eqn:Es; cbn [In] in Hc'; [contradiction|].
+      apply sem_st_false in Es. destruct Hc' as [<-|[]]. split; [congruence|]. exists n, v. auto.
 Qed.
 
 (* ---------------------------------------------------------------- removing an argument (T2) *)
-Definition sem_st (s : dsem) : bool := match s with DST => true | _ => false end.
-Lemma sem_st_true s : sem_st s = true <-> s = DST.
-Proof. destruct s; cbn; split; congruence. Qed.
-Lemma sem_st_false s : sem_st s = false <-> s <> DST.
-Proof. destruct s; cbn; split; congruence. Qed.
 
 Definition retire_dv (dv : nat -> option bool) (os : option nat) : nat -> option bool :=
   match os with Some s => updo dv s false | None => dv end.
@@ -518,6 +519,333 @@ Proof.
     + right. exists a. split; [apply Hsl, Hs|]. unfold group. destruct (e_sem e); [right|idtac|right]; exact Hin.
     + right. exists a. split; [apply (t_live L af e Ht); congruence|].
       unfold group. rewrite (avar_some e a w Ha). destruct (e_sem e); try congruence; left; reflexivity.
+Qed.
+
+(* ================================================================ Part 2 *)
+(* ---- what each encoder operation does to the session *)
+Lemma alloc_arg_vars_sess sm vars id ps vars' v ps' :
+  alloc_arg_vars sm vars id ps = Done (vars', v) ps' ->
+  sess ps' = if sem_st sm then sess ps else sess_add (sess ps) [znlit v; znlit (S v)].
+Proof.
+  unfold alloc_arg_vars. intros E. apply bind_Done in E. destruct E as ([vars1 v1] & ps1 & E1 & E2).
+  destruct (new_solver_var_fresh _ _ _ _ _ _ E1) as [Hf1 Hs1].
+  pose proof (new_solver_var_spec _ _ _ _ _ E1) as (A1 & A2 & A3 & A4). cbn [fst snd] in *.
+  destruct sm; cbn [sem_st].
+  2:{ apply ret_Done in E2. destruct E2 as [E2 <-]. apply pair_equal_spec in E2. destruct E2 as [_ <-]. exact Hs1. }
+  all: apply bind_Done in E2; destruct E2 as ([vars2 d] & ps2 & E2 & E3);
+    destruct (new_solver_var_run _ _ _ _ _ _ E2) as [R2 Hs2]; cbn [fst snd] in *;
+    apply bind_Done in E3; destruct E3 as (u & ps3 & E3 & E4);
+    apply add_clause_sess in E3; apply ret_Done in E4; destruct E4 as [E4 <-];
+    apply pair_equal_spec in E4; destruct E4 as [_ <-];
+    assert (Hd : d = S v1) by
+      (unfold alloc_var in R2; apply pair_equal_spec in R2; destruct R2 as [_ R2];
+       rewrite app_length, repeat_length in R2; rewrite Hs1 in R2; lia);
+    subst d; rewrite E3, Hs2, Hs1; reflexivity.
+Qed.
+
+Lemma remove_selector_sess e s ps e' ps' :
+  remove_selector e s ps = Done e' ps' -> sess ps' = sess_add (sess ps) [znlit s].
+Proof.
+  unfold remove_selector. destruct (Nat.ltb _ _); [|discriminate].
+  intros E. apply bind_Done in E. destruct E as (u & ps1 & E1 & E2). apply add_clause_sess in E1.
+  destruct (position _ _); [|discriminate E2]. apply ret_Done in E2. destruct E2 as [_ <-]. exact E1.
+Qed.
+
+Lemma update_attacks_to_off (af : fw) e id ps : e_upd e = false -> update_attacks_to L af e id ps = Done e ps.
+Proof. intros Hu. unfold update_attacks_to. rewrite Hu. reflexivity. Qed.
+Lemma fold_update_attacks_to_off (af : fw) ids : forall e ps,
+  e_upd e = false -> fold_m (update_attacks_to L af) ids e ps = Done e ps.
+Proof.
+  induction ids as [|id r IH]; intros e ps Hu; cbn [fold_m]; [reflexivity|].
+  unfold bind. rewrite (update_attacks_to_off af e id ps Hu). apply IH, Hu.
+Qed.
+
+Lemma tbl_var_ge t a : length t <= a -> tbl_var t a = None.
+Proof. intros H. unfold tbl_var. replace (nth_error t a) with (@None (option nat)); [reflexivity|]. symmetry. now apply nth_error_None. Qed.
+Lemma tbl_var_snoc_ne t o a : a <> length t -> tbl_var (t ++ [o]) a = tbl_var t a.
+Proof.
+  intros H. destruct (Nat.lt_ge_cases a (length t)) as [Hlt|Hge].
+  - apply tbl_var_snoc_old. exact Hlt.
+  - rewrite tbl_var_snoc_beyond by lia. symmetry. apply tbl_var_ge. exact Hge.
+Qed.
+Lemma tbl_var_snoc_none t a : tbl_var (t ++ [None]) a = tbl_var t a.
+Proof.
+  destruct (Nat.eq_dec a (length t)) as [->|Hne]; [|apply tbl_var_snoc_ne; exact Hne].
+  rewrite tbl_var_snoc_new. symmetry. apply tbl_var_ge. lia.
+Qed.
+Lemma tbl_var_set_none t id : tbl_var (set_nth id None t) id = None.
+Proof.
+  destruct (Nat.lt_ge_cases id (length t)) as [Hlt|Hge]; [apply tbl_var_set_eq; exact Hlt|].
+  apply tbl_var_ge. rewrite length_set_nth. exact Hge.
+Qed.
+
+Lemma get_new_argument_fresh (af : fw) l : get_argument af l = None ->
+  get_argument (Store.new_argument L leqb af l) l = Some (length (slots (ls af))).
+Proof.
+  intros E. destruct (new_argument_fresh_slots L leqb af l E) as [Hs _].
+  unfold Store.get_argument, find_label in *. rewrite Hs.
+  apply position_snoc_new; [exact E|]. cbn [slot_has]. apply leqb_spec. reflexivity.
+Qed.
+
+Lemma enc_new_argument_run (af : fw) e l ps af' e' ps' :
+  e_upd e = false -> get_argument af l = None ->
+  enc_new_argument L leqb af e l ps = Done (af', e') ps' ->
+  exists vars' v, af' = Store.new_argument L leqb af l /\
+    alloc_arg_vars (e_sem e) (e_vars e) (length (slots (ls af))) ps = Done (vars', v) ps' /\
+    e' = enc_with e (e_a2v e ++ [Some v]) (e_a2s e ++ [None]) vars' (e_assum e).
+Proof.
+  intros Hu Hg. unfold enc_new_argument. rewrite Hg.
+  destruct (new_argument_fresh_slots L leqb af l Hg) as [_ Hmax]. rewrite Hmax.
+  intros E. apply bind_Done in E. destruct E as ([vars' v] & ps1 & E1 & E2). cbn [fst snd] in E2.
+  apply bind_Done in E2. destruct E2 as (e4 & ps2 & E2 & E3).
+  rewrite update_attacks_to_off in E2 by exact Hu. apply Done_inj in E2. destruct E2 as [<- <-].
+  apply ret_Done in E3. destruct E3 as [E3 <-]. apply pair_equal_spec in E3. destruct E3 as [<- <-].
+  exists vars', v. auto.
+Qed.
+
+Lemma enc_remove_argument_run (af : fw) e l id ps af' e' r ps' :
+  e_upd e = false -> get_argument af l = Some id ->
+  enc_remove_argument L leqb af e l ps = Done (af', e', r) ps' -> r = ROk ->
+  exists v, tbl_var (e_a2v e) id = Some v /\ Store.remove_argument L leqb af l = (af', ROk) /\
+    e_sem e' = e_sem e /\
+    (forall a, a <> id -> tbl_var (e_a2v e') a = tbl_var (e_a2v e) a) /\ tbl_var (e_a2v e') id = None /\
+    (forall a, a <> id -> tbl_var (e_a2s e') a = tbl_var (e_a2s e) a) /\ tbl_var (e_a2s e') id = None /\
+    sess ps' = sess_adds (sess ps) (retire_units (tbl_var (e_a2s e) id) ++ [[zlit v]]).
+Proof.
+  intros Hu Hg. unfold enc_remove_argument. rewrite Hg.
+  destruct (Store.remove_argument L leqb af l) as [af1 [| |]] eqn:Er.
+  2,3: intros E Hr; apply ret_Done in E; destruct E as [E _]; congruence.
+  destruct (tbl_var (e_a2v e) id) as [v|] eqn:Ev; [|discriminate].
+  intros E _. exists v. split; [reflexivity|].
+  apply bind_Done in E. destruct E as (e2 & ps1 & E1 & E2).
+  cbn [enc_with e_a2s] in E1.
+  assert (H2 : e_sem e2 = e_sem e /\ e_upd e2 = false /\ e_a2v e2 = set_nth id None (e_a2v e) /\
+               (forall a, a <> id -> tbl_var (e_a2s e2) a = tbl_var (e_a2s e) a) /\ tbl_var (e_a2s e2) id = None /\
+               sess ps1 = sess_adds (sess ps) (retire_units (tbl_var (e_a2s e) id))).
+  { destruct (nth_error (e_a2s e) id) as [[s|]|] eqn:En; [| |discriminate E1].
+    - rewrite (tbl_var_of_nth_error _ _ _ En).
+      apply bind_Done in E1. destruct E1 as (e0 & ps0 & E0 & E1).
+      pose proof (remove_selector_sess _ _ _ _ _ E0) as Hs0.
+      destruct (remove_selector_spec _ _ _ _ _ E0) as (p & _ & ->).
+      apply ret_Done in E1. destruct E1 as [<- <-]. cbn [enc_with e_sem e_upd e_a2v e_a2s].
+      repeat split; auto.
+      + intros a Ha. apply tbl_var_set_neq. congruence.
+      + apply tbl_var_set_none.
+    - apply ret_Done in E1. destruct E1 as [<- <-]. cbn [enc_with e_sem e_upd e_a2v e_a2s].
+      rewrite (tbl_var_of_nth_error _ _ _ En). repeat split; auto. }
+  destruct H2 as (K1 & K2 & K3 & K4 & K5 & K6).
+  destruct (Nat.ltb v (length (e_vars e2))); [|discriminate E2].
+  apply bind_Done in E2. destruct E2 as (u & ps2 & E2 & E3). apply add_clause_sess in E2.
+  apply bind_Done in E3. destruct E3 as (e4 & ps3 & E3 & E4).
+  rewrite fold_update_attacks_to_off in E3 by (cbn [enc_with e_upd]; exact K2).
+  apply Done_inj in E3. destruct E3 as [<- <-].
+  apply ret_Done in E4. destruct E4 as [E4 <-].
+  apply pair_equal_spec in E4. destruct E4 as [E4 _]. apply pair_equal_spec in E4. destruct E4 as [<- <-].
+  cbn [enc_with e_sem e_a2v e_a2s]. split; [reflexivity|]. split; [exact K1|]. rewrite K3.
+  split; [intros a Ha; apply tbl_var_set_neq; congruence|]. split; [apply tbl_var_set_none|].
+  split; [exact K4|]. split; [exact K5|].
+  rewrite E2, K6. unfold sess_adds. rewrite fold_left_app. reflexivity.
+Qed.
+
+Lemma enc_new_attack_run (af : fw) e a b ps af' e' r ps' :
+  e_upd e = false -> enc_new_attack L leqb af e a b ps = Done (af', e', r) ps' -> r = ROk ->
+  Store.new_attack L leqb af a b = (af', ROk) /\ e' = e /\ ps' = ps.
+Proof.
+  intros Hu. unfold enc_new_attack. destruct (Store.new_attack L leqb af a b) as [af1 [| |]] eqn:Er.
+  - destruct (get_argument af1 b); [|discriminate]. intros E _.
+    apply bind_Done in E. destruct E as (e1 & ps1 & E1 & E2).
+    rewrite update_attacks_to_off in E1 by exact Hu. apply Done_inj in E1. destruct E1 as [<- <-].
+    apply ret_Done in E2. destruct E2 as [E2 <-].
+    apply pair_equal_spec in E2. destruct E2 as [E2 _]. apply pair_equal_spec in E2. destruct E2 as [<- <-]. auto.
+  - intros E Hr. apply ret_Done in E. destruct E as [E _]. congruence.
+  - discriminate.
+Qed.
+Lemma enc_remove_attack_run (af : fw) e a b ps af' e' r ps' :
+  e_upd e = false -> enc_remove_attack L leqb af e a b ps = Done (af', e', r) ps' -> r = ROk ->
+  Store.remove_attack L leqb af a b = (af', ROk) /\ e' = e /\ ps' = ps.
+Proof.
+  intros Hu. unfold enc_remove_attack. destruct (Store.remove_attack L leqb af a b) as [af1 [| |]] eqn:Er.
+  - destruct (get_argument af1 b); [|discriminate]. intros E _.
+    apply bind_Done in E. destruct E as (e1 & ps1 & E1 & E2).
+    rewrite update_attacks_to_off in E1 by exact Hu. apply Done_inj in E1. destruct E1 as [<- <-].
+    apply ret_Done in E2. destruct E2 as [E2 <-].
+    apply pair_equal_spec in E2. destruct E2 as [E2 _]. apply pair_equal_spec in E2. destruct E2 as [<- <-]. auto.
+  - intros E Hr. apply ret_Done in E. destruct E as [E _]. congruence.
+  - discriminate.
+Qed.
+
+(* ---- the state of a replay *)
+Record RS (af : fw) (e : denc) (U : list nat) (se : session) : Prop := {
+  rs_tabs : tabs af e; rs_inv : Inv af; rs_vz : vz e; rs_bd : sbounded se;
+  rs_ci : exists dv atk, cinv af e U (se_cl se) (nv se) dv atk }.
+
+Lemma In_must_update U id a : In a (must_update U id) <-> In a U \/ a = id.
+Proof.
+  unfold must_update. destruct (memb id U) eqn:E.
+  - apply memb_spec in E. split; [auto|]. intros [H| ->]; auto.
+  - rewrite in_app_iff. cbn [In]. split; intros [H|H]; auto. destruct H as [<-|[]]; auto.
+Qed.
+Lemma In_fold_must_update l : forall U a, In a (fold_left must_update l U) <-> In a U \/ In a l.
+Proof.
+  induction l as [|x r IH]; intros U a; cbn [fold_left In]; [tauto|].
+  rewrite IH, In_must_update. split; intros H; decompose [or] H; auto.
+Qed.
+
+Lemma std_replay_vz (af : fw) e U ev : vz e -> okm (std_replay L leqb (af, e, U) ev) (fun st => vz (snd (fst st))).
+Proof.
+  intros H ps st ps' E. apply (fold_std_replay_vz L leqb [ev] af e U H ps st ps').
+  cbn [fold_m]. unfold bind. rewrite E. reflexivity.
+Qed.
+
+Lemma tabs_pos (af : fw) e id v : tabs af e -> vz e -> tbl_var (e_a2v e) id = Some v -> 0 < v.
+Proof.
+  intros [(C1 & _) _] Hz Hv. destruct v; [|lia]. pose proof (C1 _ _ Hv) as H. unfold vz in Hz. congruence.
+Qed.
+
+Lemma tabs_lt (af : fw) e : tabs af e ->
+  (forall a x, tbl_var (e_a2v e) a = Some x -> a < length (slots (ls af))) /\
+  (forall a x, tbl_var (e_a2s e) a = Some x -> a < length (slots (ls af))).
+Proof.
+  intros [_ (L1 & L2 & _)]. split; intros a x H; apply tbl_var_lt in H; lia.
+Qed.
+
+Lemma std_replay_RS (af : fw) e U ev ps af' e' U' ps' :
+  RS af e U (sess ps) -> e_upd e = false ->
+  std_replay L leqb (af, e, U) ev ps = Done (af', e', U') ps' ->
+  RS af' e' U' (sess ps') /\ e_upd e' = false.
+Proof.
+  intros [Ht Hinv Hz Hbd (dv & atk & Hc)] Hu E.
+  destruct (std_replay_ok L leqb af e U ev Ht _ _ _ E) as (Ht' & Hu' & Hs'). cbn [fst snd] in Ht', Hu', Hs'.
+  pose proof (std_replay_af L leqb af e U ev _ _ _ E) as Haf. cbn [fst] in Haf.
+  pose proof (std_replay_vz af e U ev Hz _ _ _ E) as Hz'. cbn [fst snd] in Hz'.
+  assert (Hinv' : Inv af') by (rewrite Haf; apply (inv_ev_apply L leqb leqb_spec), Hinv).
+  split; [|congruence].
+  assert (G : sbounded (sess ps') /\ exists dv' atk', cinv af' e' U' (se_cl (sess ps')) (nv (sess ps')) dv' atk');
+    [|destruct G as [G1 G2]; split; assumption].
+  unfold std_replay in E. destruct ev as [l|l|x y|x y|x y z|x y z].
+  - (* new argument *)
+    apply bind_Done in E. destruct E as ([af1 e1] & ps1 & E1 & E2). cbn [fst snd] in E2.
+    apply bind_Done in E2. destruct E2 as (id & ps2 & E2 & E3). apply opt_m_Done in E2. destruct E2 as [Hid ->].
+    apply ret_Done in E3. destruct E3 as [E3 <-].
+    apply pair_equal_spec in E3. destruct E3 as [E3 <-]. apply pair_equal_spec in E3. destruct E3 as [-> ->].
+    destruct (get_argument af l) as [id0|] eqn:Eg.
+    + rewrite (enc_new_argument_redundant L leqb af e l id0 ps Eg) in E1. apply Done_inj in E1.
+      destruct E1 as [E1 <-]. apply pair_equal_spec in E1. destruct E1 as [<- <-].
+      split; [exact Hbd|]. exists dv, atk. eapply cinv_mono; [exact Hc| |lia].
+      intros a Ha. apply In_must_update. auto.
+    + destruct (enc_new_argument_run af e l ps _ _ _ Hu Eg E1) as (vars' & v & -> & Ea & ->).
+      rewrite (get_new_argument_fresh af l Eg) in Hid. injection Hid as <-.
+      pose proof (alloc_arg_vars_sess _ _ _ _ _ _ _ Ea) as Hse.
+      destruct (alloc_arg_vars_spec _ _ _ _ _ _ _ Ea) as (_ & Hfresh & _).
+      destruct (tabs_lt af e Ht) as [HVlt HSlt]. pose proof Ht as [_ (L1 & L2 & _)].
+      assert (Hse' : sbounded (sess ps1) /\ nv (sess ps) <= nv (sess ps1) /\
+                     se_cl (sess ps1) = se_cl (sess ps) ++ (if sem_st (e_sem e) then [] else [[znlit v; znlit (S v)]])).
+      { rewrite Hse. destruct (sem_st (e_sem e)).
+        - rewrite app_nil_r. auto.
+        - split; [apply sbounded_add, Hbd|]. split; [apply nv_add|apply se_cl_add]. }
+      destruct Hse' as (B1 & B2 & B3). split; [exact B1|]. exists dv, atk.
+      apply (cinv_push af _ e _ U _ (se_cl (sess ps)) _ (nv (sess ps)) _ dv atk (length (slots (ls af))) v Hc Hinv).
+      * intros a Ha. apply (has_lt L). exact Ha.
+      * exact HVlt.
+      * exact HSlt.
+      * reflexivity.
+      * intros a Ha. cbn [enc_with e_a2v]. apply tbl_var_snoc_ne. lia.
+      * cbn [enc_with e_a2v]. rewrite <- L1. apply tbl_var_snoc_new.
+      * intros a. cbn [enc_with e_a2s]. apply tbl_var_snoc_none.
+      * exact Hfresh.
+      * exact B2.
+      * exact B3.
+      * intros a. apply (new_argument_has L leqb af l a Eg).
+      * apply new_argument_attacks.
+      * apply In_must_update. auto.
+      * intros a Ha. apply In_must_update. auto.
+  - (* remove argument *)
+    apply bind_Done in E. destruct E as (id & ps0 & E0 & E). apply opt_m_Done in E0. destruct E0 as [Hg ->].
+    cbv zeta in E. apply bind_Done in E. destruct E as ([[af1 e1] r] & ps1 & E1 & E2).
+    apply bind_Done in E2. destruct E2 as (p & ps2 & E2 & E3). apply unwrap_ok_Done in E2. destruct E2 as [E2 ->].
+    apply pair_equal_spec in E2. destruct E2 as [<- Hr].
+    apply ret_Done in E3. destruct E3 as [E3 <-]. cbn [fst snd] in E3.
+    apply pair_equal_spec in E3. destruct E3 as [E3 HU']. apply pair_equal_spec in E3. destruct E3 as [-> ->].
+    destruct (enc_remove_argument_run af e l id ps _ _ _ _ Hu Hg E1 Hr) as
+      (v & Hv & Hrm & Hsem & HV & HVid & HS & HSid & Hse).
+    destruct (nv_adds (retire_units (tbl_var (e_a2s e) id) ++ [[zlit v]]) (sess ps)) as [N1 N2].
+    assert (B1 : sbounded (sess ps1)) by (rewrite Hse; apply sbounded_adds, Hbd).
+    split; [exact B1|]. exists (kill_dv dv (sem_st (e_sem e)) (tbl_var (e_a2s e) id) v), atk.
+    apply (cinv_kill af _ e _ U U' (se_cl (sess ps)) _ (nv (sess ps)) _ dv atk id v Hc).
+    + apply tables_ok_split. exact Ht.
+    + exact (tabs_pos af e id v Ht Hz Hv).
+    + exact Hv.
+    + exact Hsem.
+    + exact HV.
+    + exact HVid.
+    + exact HS.
+    + exact HSid.
+    + rewrite Hse. exact N1.
+    + rewrite Hse. pose proof (N2 [zlit v]) as Hn. rewrite clause_max_single, lit_var_zlit in Hn.
+      apply Hn. apply in_or_app. right. left. reflexivity.
+    + intros s Hs. rewrite Hse. pose proof (N2 [znlit s]) as Hn. rewrite clause_max_single, lit_var_znlit in Hn.
+      apply Hn. apply in_or_app. left. rewrite Hs. left. reflexivity.
+    + intros Hst. rewrite Hse. pose proof (ci_bin _ _ _ _ _ _ _ Hc Hst id v Hv) as Hb.
+      pose proof (sbounded_lit (sess ps) _ (znlit (S v)) Hbd Hb) as Hl. rewrite lit_var_znlit in Hl.
+      assert (S v <= nv (sess ps)) by (apply Hl; right; left; reflexivity). lia.
+    + rewrite Hse, se_cl_adds. reflexivity.
+    + apply (remove_argument_has L leqb af _ l id Hg Hrm).
+    + apply (remove_argument_attacks L leqb leqb_spec af _ l id Hinv Hg Hrm).
+    + intros a Ha. rewrite <- HU'. apply In_fold_must_update. auto.
+    + intros a Ha Hne. rewrite <- HU'. apply In_fold_must_update. right. apply filter_In.
+      split; [apply (targets_spec L af id a Hinv); exact Ha|]. apply negb_true_iff, Nat.eqb_neq. exact Hne.
+  - (* new attack *)
+    apply bind_Done in E. destruct E as ([[af1 e1] r] & ps1 & E1 & E2).
+    apply bind_Done in E2. destruct E2 as (p & ps2 & E2 & E3). apply unwrap_ok_Done in E2. destruct E2 as [E2 ->].
+    apply pair_equal_spec in E2. destruct E2 as [<- Hr]. cbn [fst snd] in E3.
+    apply bind_Done in E3. destruct E3 as (id & ps3 & E3 & E4). apply opt_m_Done in E3. destruct E3 as [Hid ->].
+    apply ret_Done in E4. destruct E4 as [E4 <-].
+    apply pair_equal_spec in E4. destruct E4 as [E4 HU']. apply pair_equal_spec in E4. destruct E4 as [-> ->].
+    destruct (enc_new_attack_run af e x y ps _ _ _ _ Hu E1 Hr) as (Hna & -> & ->).
+    split; [exact Hbd|]. exists dv, atk.
+    destruct (new_attack_attacks L leqb leqb_spec af _ x y Hinv Hna) as (x0 & y0 & Hx0 & Hy0 & Hrel).
+    assert (Haf1 : af' = fst (Store.new_attack L leqb af x y)) by (rewrite Hna; reflexivity).
+    rewrite Haf1, (new_attack_get L leqb), Hy0 in Hid. injection Hid as <-.
+    eapply cinv_fw.
+    + eapply cinv_mono; [exact Hc| |apply le_n]. intros a Ha. rewrite <- HU'. apply In_must_update. auto.
+    + intros a. rewrite Haf1. apply (new_attack_has L leqb).
+    + intros a b Hn. rewrite Hrel. split; [|auto]. intros [H|H]; [exact H|].
+      injection H as -> ->. exfalso. apply Hn. rewrite <- HU'. apply In_must_update. auto.
+  - (* remove attack *)
+    apply bind_Done in E. destruct E as ([[af1 e1] r] & ps1 & E1 & E2).
+    apply bind_Done in E2. destruct E2 as (p & ps2 & E2 & E3). apply unwrap_ok_Done in E2. destruct E2 as [E2 ->].
+    apply pair_equal_spec in E2. destruct E2 as [<- Hr]. cbn [fst snd] in E3.
+    apply bind_Done in E3. destruct E3 as (id & ps3 & E3 & E4). apply opt_m_Done in E3. destruct E3 as [Hid ->].
+    apply ret_Done in E4. destruct E4 as [E4 <-].
+    apply pair_equal_spec in E4. destruct E4 as [E4 HU']. apply pair_equal_spec in E4. destruct E4 as [-> ->].
+    destruct (enc_remove_attack_run af e x y ps _ _ _ _ Hu E1 Hr) as (Hna & -> & ->).
+    split; [exact Hbd|]. exists dv, atk.
+    destruct (remove_attack_attacks L leqb leqb_spec af _ x y Hinv Hna) as (x0 & y0 & Hx0 & Hy0 & Hrel).
+    assert (Haf1 : af' = fst (Store.remove_attack L leqb af x y)) by (rewrite Hna; reflexivity).
+    rewrite Haf1, (remove_attack_get L leqb), Hy0 in Hid. injection Hid as <-.
+    eapply cinv_fw.
+    + eapply cinv_mono; [exact Hc| |apply le_n]. intros a Ha. rewrite <- HU'. apply In_must_update. auto.
+    + intros a. rewrite Haf1. apply (remove_attack_has L leqb).
+    + intros a b Hn. rewrite Hrel. split; [tauto|]. intros H. split; [exact H|].
+      intros E. injection E as -> ->. apply Hn. rewrite <- HU'. apply In_must_update. auto.
+  - apply ret_Done in E. destruct E as [E <-].
+    apply pair_equal_spec in E. destruct E as [E <-]. apply pair_equal_spec in E. destruct E as [<- <-].
+    split; [exact Hbd|]. exists dv, atk. exact Hc.
+  - apply ret_Done in E. destruct E as [E <-].
+    apply pair_equal_spec in E. destruct E as [E <-]. apply pair_equal_spec in E. destruct E as [<- <-].
+    split; [exact Hbd|]. exists dv, atk. exact Hc.
+Qed.
+
+Lemma fold_std_replay_RS evs : forall (af : fw) e U ps af' e' U' ps',
+  RS af e U (sess ps) -> e_upd e = false ->
+  fold_m (std_replay L leqb) evs (af, e, U) ps = Done (af', e', U') ps' ->
+  RS af' e' U' (sess ps') /\ e_upd e' = false.
+Proof.
+  induction evs as [|ev r IH]; intros af e U ps af' e' U' ps' Hrs Hu E; cbn [fold_m] in E.
+  - apply ret_Done in E. destruct E as [E <-].
+    apply pair_equal_spec in E. destruct E as [E <-]. apply pair_equal_spec in E. destruct E as [<- <-]. auto.
+  - apply bind_Done in E. destruct E as ([[af1 e1] U1] & ps1 & E1 & E2).
+    destruct (std_replay_RS _ _ _ _ _ _ _ _ _ Hrs Hu E1) as [Hrs1 Hu1]. eapply IH; eassumption.
 Qed.
 
 End DynInv.
